@@ -42,7 +42,7 @@ def replay_routing(ctx, states):
                     e[c] = 1
                     got = st_ctrl(e, op, ctrl0, tg0) if ctrl0 else st_apply(e, op, tg0)
                     ctx.evaluations += 1
-                    if np.abs(got - M[:, c]).max() > TOL:
+                    if core.gt(np.abs(got - M[:, c]).max(), TOL):
                         bad('state.apply_control_n_gate' if ctrl0 else 'state.apply_gate', 'embedded operator on a basis column', dict(unit=[i - 1, j - 1], column=c))
                         break
                 if not ctrl0:
@@ -51,7 +51,7 @@ def replay_routing(ctx, states):
                         rho = np.zeros((D, D), dtype=complex)
                         rho[c, c2] = 1
                         v = dm_expect(rho, op, tg0)
-                        if abs(v - M[c2, c]) > TOL:
+                        if core.gt(abs(v - M[c2, c]), TOL):
                             bad('dm.operator_expectation', 'Tr(rho O)', dict(unit=[i - 1, j - 1], rho=[c, c2]))
                             break
             # Circuit-level methods on a superposition with non-unit coefficients (linearity is exercised, not assumed)
@@ -78,19 +78,19 @@ def replay_routing(ctx, states):
                 circ = None
             if circ is not None and circ.num_qubit == n:
                 got = circ.apply_state(psi.copy())
-                if np.abs(got - M @ psi).max() > TOL:
+                if core.gt(np.abs(got - M @ psi).max(), TOL):
                     bad('Circuit.%s' % circ.gate_index_list[0][0].name, 'circuit-level gate on a superposition', dict(op=[[i1 - 1, j1 - 1], [i2 - 1, j2 - 1]]))
             if not ctrl0:
                 rho = np.outer(psi, np.conj(np.roll(psi, 1)))
                 got = dm_apply(rho, op, tg0)
-                if np.abs(got - M @ rho @ M.conj().T).max() > TOL:
+                if core.gt(np.abs(got - M @ rho @ M.conj().T).max(), TOL):
                     bad('dm.apply_gate', 'U rho U^dagger', dict(op=[[i1 - 1, j1 - 1], [i2 - 1, j2 - 1]]))
                 got = st_apply(psi, op, tg0)
-                if np.abs(got - M @ psi).max() > TOL:
+                if core.gt(np.abs(got - M @ psi).max(), TOL):
                     bad('state.apply_gate', 'superposition / complex gate', None)
             else:
                 got = st_ctrl(psi, op, ctrl0, tg0)
-                if np.abs(got - M @ psi).max() > TOL:
+                if core.gt(np.abs(got - M @ psi).max(), TOL):
                     bad('state.apply_control_n_gate', 'superposition / complex gate', None)
         except Exception as ex:
             bad('exception', type(ex).__name__ + ': ' + str(ex)[:200])
@@ -117,7 +117,7 @@ def replay_behaviour(ctx, beh, with_u):
                 ctx.violation('C03:Circuit.num_qubit:register-size', 'register size differs from 1 + largest index in use', data)
                 return
             q = circ.apply_state(numqi.sim.new_base(n))
-            if np.abs(q - zo_vec(obs['psi'], obs['e'])).max() > TOL:
+            if core.gt(np.abs(q - zo_vec(obs['psi'], obs['e'])).max(), TOL):
                 key = call['call'] if call['call'] != 'add' else call['g']['op']
                 ctx.violation('C03:Circuit.apply_state:%s' % key, 'state after the circuit differs from the ordered product of embedded operators (last call %s)' % word[-1], data)
                 return
@@ -133,20 +133,20 @@ def replay_behaviour(ctx, beh, with_u):
     try:
         if with_u:
             U = circ.to_unitary()
-            if np.abs(U - zo_mat(obs['u'], obs['ue'])).max() > TOL:
+            if core.gt(np.abs(U - zo_mat(obs['u'], obs['ue'])).max(), TOL):
                 ctx.violation('C03:Circuit.to_unitary:product', 'to_unitary differs from the ordered product of embedded operators', data)
-            elif obs['unitary'] and np.abs(U @ U.conj().T - np.eye(2 ** n)).max() > TOL:
+            elif obs['unitary'] and core.gt(np.abs(U @ U.conj().T - np.eye(2 ** n)).max(), TOL):
                 ctx.violation('C03:Circuit.to_unitary:unitary', 'to_unitary is not unitary', data)
         for mask in range(1, 2 ** n):
             keep = {qq for qq in range(n) if (mask >> (n - 1 - qq)) & 1}
             got = numqi.sim.state.reduce_to_probability(q, keep)
             want = np.array([zo(c).real for c in obs['marg'][mask - 1]]) / 2 ** obs['e']
-            if got.shape != want.shape or np.abs(got - want).max() > TOL:
+            if got.shape != want.shape or core.gt(np.abs(got - want).max(), TOL):
                 ctx.violation('C03:reduce_to_probability:born-marginal', 'marginal probabilities differ from the Born marginals', dict(data, keep=sorted(keep)))
                 break
         X, Y = np.array([[0, 1], [1, 0]], dtype=complex), np.array([[0, -1j], [1j, 0]])
         got = numqi.sim.state.inner_product_psi0_O_psi1(q, q, [[(X, 0), (Y, n - 1)]])[0] if n > 1 else None
-        if n > 1 and abs(got - zo(obs['xy']) / 2 ** obs['e']) > TOL:
+        if n > 1 and core.gt(abs(got - zo(obs['xy']) / 2 ** obs['e']), TOL):
             ctx.violation('C03:inner_product_psi0_O_psi1:pauli-string', '<psi|X_0 Y_last|psi> differs', data)
     except Exception as ex:
         ctx.violation('C03:exception:observables', type(ex).__name__ + ': ' + str(ex)[:200], data)
@@ -172,12 +172,12 @@ def run_graph(ctx, quick):
         ctx.case(('graph', n, tuple(sorted(E))))
         try:
             q, circs = numqi.sim.build_graph_state(A, return_stabilizer_circ=True)
-            if q.shape != want.shape or np.abs(q - want).max() > TOL:
+            if q.shape != want.shape or core.gt(np.abs(q - want).max(), TOL):
                 ctx.violation('C03:build_graph_state:amplitudes', 'graph state differs from prod CZ_edges H^n |0..0>', data)
             for i, c in enumerate(circs):
                 m = c.num_qubit   # the circuit only spans the qubits it touches; the rest are (MSB-first) trailing qubits
                 out = (c.to_unitary() @ want.astype(complex).reshape(2 ** m, -1)).reshape(-1)
-                if m > n or np.abs(out - want).max() > TOL:
+                if m > n or core.gt(np.abs(out - want).max(), TOL):
                     ctx.violation('C03:build_graph_state:stabilizer-circuit', 'stabilizer circuit K_%d does not fix the graph state' % i, data)
             ctx.traces += 1
         except Exception as ex:
